@@ -507,6 +507,84 @@ fn failing_populate_section(shard: Shard, rep: &mut Report) {
     }
 }
 
+/// Names that differ only beyond what a directory entry can hold (NAME_MAX = 255 bytes), or of which one extends the
+/// other there: whatever the library does with such names (the operating system refuses them), a lookup never
+/// answers with the bytes written under the other name.  Plain, sharded and stacked front-ends, both hashes equal,
+/// multi-chunk values, writes by set / put / ensure.
+fn long_name_section(shard: Shard, rep: &mut Report) {
+    use crate::ops::{Checker, Dirs, Front, StackCfg, K};
+    use crate::world::Scratch;
+    let stem255 = "n".repeat(255);
+    let pairs: Vec<(String, String)> = vec![
+        (format!("{}A", stem255), format!("{}B", stem255)),
+        (stem255.clone(), format!("{}x", stem255)),
+        (format!("{}A", "m".repeat(254)), format!("{}B", "m".repeat(254))),
+        (format!("{}\u{e9}A", "u".repeat(253)), format!("{}\u{e9}B", "u".repeat(253))),
+    ];
+    let mut no = 0u64;
+    for front_no in 0..3u8 {
+        for (pi, (a, b)) in pairs.iter().enumerate() {
+            for writer in 0..3u8 {
+                no += 1;
+                if !shard.mine(no) {
+                    continue;
+                }
+                crate::run::reset_env();
+                let sc = Scratch::new();
+                let dirs = Dirs::under(&sc.root, if front_no == 2 { 1 } else { 0 });
+                let front = if front_no == 1 { Front::Sharded(2) } else { Front::Plain };
+                let cfg = StackCfg { writer: Some((front, 1 << 40)), readers: if front_no == 2 { vec![Front::Plain] } else { vec![] }, checker: Checker::None, auto_sync: true };
+                crate::shim::passthrough(|| {
+                    std::fs::create_dir_all(&dirs.write).unwrap();
+                    for r in &dirs.reads {
+                        std::fs::create_dir_all(r).unwrap();
+                    }
+                });
+                let cache = crate::ops::build(&cfg, &dirs, None);
+                let ka = K::new(a, 11, 12);
+                let kb = K::new(b, 11, 12);
+                let va = Val::new(0, Size::Chunks);
+                let vb = Val::new(1, Size::Chunks);
+                let wr = |k: &K, v: Val| match writer {
+                    0 => Op::Set(k.clone(), v),
+                    1 => Op::Put(k.clone(), v),
+                    _ => Op::Ensure(k.clone(), Pop::Value(v)),
+                };
+                let script = vec![(wr(&ka, va), 0u8), (wr(&kb, vb), 1), (Op::Get(ka.clone()), 0), (Op::Get(kb.clone()), 1), (Op::Ensure(ka.clone(), Pop::Value(va)), 0), (Op::Ensure(kb.clone(), Pop::Value(vb)), 1)];
+                rep.evaluations += 1;
+                rep.states += 1;
+                rep.traces += 1;
+                rep.count("long_name_cases", 1);
+                for (op, owner) in script {
+                    let (o, t) = crate::run::as_participant(0, 0, || {
+                        crate::run::trigger_never();
+                        crate::ops::exec(&cache, &dirs, &op, &Default::default())
+                    });
+                    rep.transitions += t.len() as u64;
+                    let res = match o {
+                        Ok(o) => o.res,
+                        Err(p) => Res::Panic(p),
+                    };
+                    let own = if owner == 0 { va } else { vb };
+                    let msg = match &res {
+                        Res::Hit(bytes) if *bytes != own.bytes() => Some(format!("read {} - not a value written for that key", world::describe_bytes(bytes))),
+                        Res::Panic(p) => Some(format!("panicked: {}", p)),
+                        _ => None,
+                    };
+                    if let Some(m) = msg {
+                        rep.violation(
+                            "content:foreign-read-long-name",
+                            format!("{} front, name pair {} ({} and {} bytes, equal up to byte {}), written by {}: {} on the {} name {}", ["plain", "sharded", "stacked"][front_no as usize], pi, a.len(), b.len(), a.bytes().zip(b.bytes()).take_while(|(x, y)| x == y).count(), ["set", "put", "ensure"][writer as usize], op.label().chars().take(24).collect::<String>(), if owner == 0 { "first" } else { "second" }, m),
+                            serde_json::json!({"long_name_section": true}),
+                        );
+                        break;
+                    }
+                }
+            }
+        }
+    }
+}
+
 pub fn run(tier: Tier, shard: Shard, rep: &mut Report) {
     rep.rule = "curated programs of 2-3 participants x 1-2 operations from {set, put, set_temp_file, ensure, get_or_update->Replace, \
         get+read-to-end, touch} over two keys with writer-distinct values (1 B, 5 B and 3 x 8 KiB written by three write calls), \
@@ -521,7 +599,7 @@ pub fn run(tier: Tier, shard: Shard, rep: &mut Report) {
         fault-free, for ensure and get_or_update x {Accept, Promote, Replace} whose populate callback fails (NotFound or another error, \
         before writing or after the first write) x 3 front-ends x 5 pre-states x {key held by a read-only level, key absent everywhere} \
         x {no checker, byte-equality checker}: the returned handle, every intermediate state, the final tree and a later lookup \
-        through a fresh handle never show an empty or cut value. Non-trivial = execution with >= 1 preemption."
+        through a fresh handle never show an empty or cut value. And names that differ only beyond the 255th byte (or of which one extends the other there), written by set, put and ensure with multi-chunk values on the three front-ends: no lookup answers with the bytes written under the other name. Non-trivial = execution with >= 1 preemption."
         .into();
     rep.assumptions = vec![
         "threads with own handles stand in for processes; sequentially consistent interleaving of whole system calls".into(),
@@ -538,10 +616,16 @@ pub fn run(tier: Tier, shard: Shard, rep: &mut Report) {
     crate::run::reset_env();
     fault_section(shard, rep);
     failing_populate_section(shard, rep);
+    crate::run::reset_env();
+    long_name_section(shard, rep);
     rep.count("invariant_file_checks", INVARIANT_FILE_CHECKS.load(std::sync::atomic::Ordering::Relaxed));
 }
 
 pub fn replay(case: &Value, rep: &mut Report) {
+    if case.get("long_name_section").is_some() {
+        long_name_section(Shard { index: 0, count: 1 }, rep);
+        return;
+    }
     if case.get("failing_populate_section").is_some() {
         failing_populate_section(Shard { index: 0, count: 1 }, rep);
         return;
